@@ -271,7 +271,8 @@ class Expect(object):
         self.target = None
         self.rule = None
         I = impl.I
-        if k in ('add', 'remove', 'addhelper', 'addsegment', 'addgroup', 'dellistindex', 'setlistindex', 'removebyname') or \
+        if k in ('add', 'remove', 'addhelper', 'addsegment', 'addgroup', 'dellistindex', 'setlistindex', 'removebyname',
+                 'insert') or \
                 (k in ('setattr', 'delattr', 'setindex', 'delindex') and len(op[2]) == 1):
             if 0 <= op[1] < len(I):
                 self.target = I[op[1]]
@@ -291,6 +292,8 @@ class Expect(object):
             self.cname = canon(x, op[2])
         if k in ('add', 'remove'):
             self.arg = I[op[2]] if 0 <= op[2] < len(I) else None
+        if k == 'insert':
+            self.arg = I[op[3]] if 0 <= op[3] < len(I) else None
         # copy by value: the payload of a proxy / element right-hand side at the time of the call
         self.rhs = None
         v = op[3] if k in ('setattr', 'setlistindex') else (op[4] if k == 'setindex' else None)
@@ -310,6 +313,11 @@ class Expect(object):
             if id(self.arg) in ids_b:
                 return None, 'already listed (C10 / F8)'
             return b + [(self.arg.name, enc(self.arg, self.ec))], 'add appends'
+        if k == 'insert':
+            if self.arg is None or id(self.arg) in ids_b:
+                return None, ''
+            j = min(max(self.op[2], 0), len(b))
+            return b[:j] + [(self.arg.name, enc(self.arg, self.ec))] + b[j:], 'children.insert(i, c) puts c at position i'
         if k in ('addhelper', 'addsegment', 'addgroup'):
             if len(a) != len(b) + 1:
                 return b + [('?', '')], 'add_<child> appends one child'
@@ -409,6 +417,19 @@ def main(argv=None):
         check_step(run, g, v, lvl, stats, shapes, {})
         if k == 5:
             samples.append({'version': v, 'level': lvl, 'message_level': True, 'ops': g.ops, 'codes': g.codes})
+    # children.insert(i, element) (MutableSequence API; outside the model's alphabet: oracle only)
+    stats['insert_histories'] = 0
+    for v in versions:
+        for lvl in (H.TOLERANT, H.STRICT):
+            for ops in ([['newseg', lvl, 'ZZ1'], ['newfield', lvl, 'ZZ1_7', None], ['setvalue', 1, 'x'], ['insert', 0, 0, 1]],
+                        [['newseg', lvl, 'ZZ1'], ['setattr', 0, ['zz1_2'], ['t', 'b']], ['newfield', lvl, 'ZZ1_5', None],
+                         ['setvalue', 2, 'e'], ['insert', 0, 0, 2]],
+                        [['newseg', lvl, 'PID'], ['setattr', 0, ['pid_5'], ['t', 'A']], ['newfield', lvl, 'PID_3', None],
+                         ['setvalue', 2, '7'], ['insert', 0, 0, 2]],
+                        [['newseg', lvl, 'PID'], ['setindex', 0, ['pid_3'], 0, ['t', 'A']], ['setindex', 0, ['pid_3'], 1, ['t', 'B']],
+                         ['newfield', lvl, 'PID_3', None], ['setvalue', 3, 'C'], ['insert', 0, 1, 3]]):
+                stats['insert_histories'] += 1
+                oracle_on_history(run, v, ops, lvl)
     H.shrink_oracle_failures(run, oracle_on_history, ('rule', 'target_class', 'value_kind'))
     run.log('implementation side: %d steps, %d successful mutations compared with the reference model, %d failures'
             % (stats['steps'], stats['mutations_checked'], len(run.failures)))
@@ -450,6 +471,13 @@ def check_step(run, g, v, lvl, stats, shapes, state):
             state['exp'] = Expect(impl, op)
             state['absent'] = None
             state['copy'] = copy_expectation(impl, op) if op[0] in ('setattr', 'setindex') else None
+            state['nested'] = None
+            if op[0] in ('setattr', 'setvaluechain') and 0 <= op[1] < len(impl.I) and isinstance(op[2], list) and \
+                    len(op[2]) >= 2 and absent_link(impl.I[op[1]], op[2][:1]) is False:
+                # a write BELOW an existing child, through its name: the children of x stay the same elements
+                ids = [id(c) for c in impl.I[op[1]].children.list]
+                if len(ids) == len(set(ids)):
+                    state['nested'] = (ids, [c.name for c in impl.I[op[1]].children.list])
             if op[0] in ('setvaluechain', 'setattr') and 0 <= op[1] < len(impl.I) and isinstance(op[2], list):
                 state['absent'] = absent_link(impl.I[op[1]], op[2] if op[0] == 'setvaluechain' else op[2][:-1])
             return
@@ -486,6 +514,16 @@ def check_step(run, g, v, lvl, stats, shapes, state):
         if isinstance(op[2] if len(op) > 2 else None, list) and op[2] and 0 <= op[1] < len(impl.I) and \
                 malformed_position(impl.I[op[1]], op[2][0]):
             stats['malformed_positions_refused'] = stats.get('malformed_positions_refused', 0) + 1
+        if state.get('nested') is not None and data[0] == 0:
+            x = impl.I[op[1]]
+            stats['nested_writes_checked'] = stats.get('nested_writes_checked', 0) + 1
+            now = [id(c) for c in x.children.list]
+            if now != state['nested'][0]:
+                run.fail('list-edit-differs', 'a write below the existing child %s, through its name, changed the children of '
+                         '%r: they were %r, they are %r' % (op[2][0], x, state['nested'][1], [c.name for c in x.children.list]),
+                         rule='nested-write', target_class=x.classname, target_datatype=None, value_kind='text',
+                         version=v, level=lvl, ops=g.ops + [op], step=kk)
+                return
         cp = state.get('copy')
         if cp is not None and data[0] == 0 and msg_level:
             t = descend(impl.I[op[1]], op[2])
